@@ -25,7 +25,7 @@ LEVEL_NOTE = ('per instantiation (tensor shape, range tuple, type, source kind T
               '(2) a rank-2 TensorMap slice next to a rank-2 Tensor slice in one expression is evaluated with eval(row,col) although the generic '
               'view reads eval(i,j) as flat offset i+j (seq2x-map, fseq2x-map).  Not covered because the API rejects them at compile time: '
               'seq/fseq mixtures on const rank-2 tensors, iseq of rank 3 on non-const / ranks 1,2,4 on const tensors, iseq with `last`; int unary minus '
-              'inside expressions is left to C02 (known SIMD negate defect)')
+              'inside expressions is left to C02')
 
 def evidence_extra(tier):
     t = tier == 'thorough'
@@ -472,7 +472,7 @@ def cases(tier, seed):
                     for ci, ch in enumerate(chunked(sl, 6 if len(shape) < 3 else 3)):
                         out.append(read_case('iseq%d-%s' % (len(shape), src), ty, shape, ch, cfg, src=src, ident='i%d' % ci))
             # ---------------- (d) slices inside expressions ----------------
-            # (integer unary minus is a known defect of the element-wise layer -- property C02 -- and is not used here)
+            # (integer unary minus belongs to the element-wise layer -- property C02 -- and is not used here)
             es = [V, V + 1] if not thorough else sorted({V - 1, V, V + 1, 2 * V + 1} - {0})
             for n, (N, e, s, sl) in enumerate(vsweep(V, es=es, ss=(1, 2), fs=(0, 1), both=False, rot=ti)):
                 for ki, kind in enumerate(('seq', 'fseq')):
